@@ -1,6 +1,7 @@
 package main
 
 import (
+	"bytes"
 	"strings"
 	"time"
 
@@ -58,6 +59,8 @@ var flineMenu = []string{
 	"SIP/2.0 000 x\r\n",
 	"INVITE  sip:a SIP/2.0\r\n",
 	"SIP/2.0 20 OK\r\n",
+	"\r\nINVITE sip:a@b SIP/2.0\r\n", // keep-alive CRLF in front of the start line (rejected by the library as it is)
+	"\n\r\nSIP/2.0 200 OK\r\n",
 }
 
 var flineMenuQuick = []string{
@@ -65,9 +68,10 @@ var flineMenuQuick = []string{
 	"OPTIONS sip:o SIP/2.0\rX-A: 1\r\n",
 	"SIP/2.0 200 OK\r\n",
 	"sip/2.0 404 Not Found\n",
+	"\r\nINVITE sip:a@b SIP/2.0\r\n",
 }
 
-var bodyMenu = []string{"", "ab", "abcdEXTRA"}
+var bodyMenu = []string{"", "ab", "abcdEXTRA", "\nb", "\r\n"} // incl. bodies that begin with a line end
 
 // fixed long messages (single-path tries); the repository's test messages are among them.
 var longMsgs = []string{
@@ -166,11 +170,46 @@ func checkC01(r *Run) {
 
 // ---- C03 exemption for messages without Content-Length (body = rest of buffer) ----
 
-func msgNoCLenExempt(o any, flags uint) bool {
+func msgNoCLenExempt(o any, flags uint, text []byte) bool {
 	if flags&uint(sipsp.SIPMsgSkipBodyF|sipsp.SIPMsgCLenReqF) != 0 {
 		return false
 	}
-	return !o.(*sipsp.PSIPMsg).PV.CLen.Parsed()
+	// "a message without Content-Length" is decided from the text, not from what the parser made of it: if the
+	// header block has a Content-Length line that the parser did not take as one, nothing is exempt
+	return !o.(*sipsp.PSIPMsg).PV.CLen.Parsed() && !textHasCLen(text)
+}
+
+// textHasCLen: does the header block (up to the first empty line) contain a line whose name - the text before the
+// first ':' without surrounding SP/HT - is Content-Length or l, in any letter case?
+func textHasCLen(text []byte) bool {
+	first := true
+	for len(text) > 0 {
+		e := bytes.IndexAny(text, "\r\n")
+		line := text
+		if e >= 0 {
+			line = text[:e]
+			if text[e] == '\r' && e+1 < len(text) && text[e+1] == '\n' {
+				e++
+			}
+			text = text[e+1:]
+		} else {
+			text = nil
+		}
+		if first {
+			first = false
+			continue // the first line
+		}
+		if len(line) == 0 {
+			return false // end of the header block
+		}
+		if c := bytes.IndexByte(line, ':'); c > 0 {
+			n := strings.ToLower(strings.Trim(string(line[:c]), " \t"))
+			if n == "content-length" || n == "l" {
+				return true
+			}
+		}
+	}
+	return false
 }
 
 func msgBodyLines(l string) bool {
